@@ -324,3 +324,128 @@ def pda_programs(draw, tier, focus="accept"):
 PDA_RULE = ("model-based object histories on one PDA object (closure-complete within limit 60): repeated acceptance queries (vs. exact saturation on the model), pda_is_push_pop, "
             "in-place normal forms, direct edits of F and delta, and pure conversions (pda_to_cfg, pda_to_push_pop, pda_to_accept_on_empty_stack) whose results are compared on all "
             "words up to length 3; non-trivial: >= 2 queries and >= 1 other step")
+
+
+# ======================================================================================
+# context-free grammars
+# ======================================================================================
+
+from gambatools import cfg_algorithms as CA   # noqa: E402
+from gen import cfg as GC                     # noqa: E402
+
+CFG_IN_PLACE = {
+    "add_new_start": lambda Gr, hint: CA.cfg_add_new_start_variable_in_place(Gr, hint),
+    "remove_epsilon": lambda Gr, hint: CA.cfg_remove_epsilon_rules_in_place(Gr),
+    "eliminate_unit": lambda Gr, hint: CA.cfg_eliminate_unit_rules_in_place(Gr),
+    "length_two": lambda Gr, hint: CA.cfg_make_rules_of_length_two_in_place(Gr),
+    "eliminate_terminals": lambda Gr, hint: CA.cfg_eliminate_terminals_in_place(Gr),
+    "to_chomsky": lambda Gr, hint: CA.cfg_to_chomsky_in_place(Gr),
+    "remove_useless_rules": lambda Gr, hint: CA.cfg_remove_useless_rules_in_place(Gr),
+}
+
+
+def run_cfg(case):
+    spec = copy.deepcopy(BC.canon(case["cfg"]))
+    Gr = BC.mk_cfg(spec)
+    L = 4 if len(spec["T"]) == 1 else 3
+    nq = nmod = 0
+    cls = set()
+    hist = []
+    for k, step in enumerate(case["steps"]):
+        op = step["op"]
+        hist.append(op + ":" + str(step.get("what", "")))
+        if op == "query":
+            for w in step["words"]:
+                w = "".join(c for c in w if c in spec["T"])[:L + 1]
+                got = lib(CA.cfg_accepts_word, Gr, w)
+                want = RC.accepts(spec, w)
+                if got is not want:
+                    raise Fail("stale_answer_cfg", "step %d: cfg_accepts_word(%r) = %r but the current content of the grammar object %s it; history: %s" %
+                               (k, w, got, "derives" if want else "does not derive", hist))
+                nq += 1
+        elif op == "enumerate":
+            n = step["n"]
+            got = lib(CA.cfg_words_up_to_n, Gr, n)
+            want = RC.lang_upto(spec, n)
+            if got != want:
+                raise Fail("stale_enumeration_cfg", "step %d: cfg_words_up_to_n(n=%d): extra %r, missing %r; history: %s" % (k, n, sorted(got - want, key=len)[:3], sorted(want - got, key=len)[:3], hist))
+            nq += 1
+        elif op == "in_place":
+            if len(spec["V"]) > 12:
+                continue
+            before = RC.lang_upto(spec, L)
+            lib(CFG_IN_PLACE[step["what"]], Gr, step.get("hint", "S"))
+            new = BC.snap_cfg(Gr)
+            err = RC.valid(new) or BC.typed_ok(Gr)
+            if err:
+                raise Fail("in_place_invalid_cfg", "step %d: cfg_%s_in_place leaves an invalid grammar: %s; history: %s" % (k, step["what"], err, hist))
+            if RC.lang_upto(new, L) != before:
+                raise Fail("in_place_language_cfg", "step %d: %s changed the language; history: %s" % (k, step["what"], hist))
+            spec = new
+            nmod += 1
+            cls.add("in_place_" + step["what"])
+        elif op == "edit":
+            V, T = spec["V"], spec["T"]
+            what = step["what"]
+            from gambatools.cfg import Rule, Alternative, Variable, Terminal
+            if what == "add_rule":
+                A = V[step["a"] % len(V)]
+                rhs = [(V + T)[x % (len(V) + len(T))] for x in step["rhs"]]
+                spec["R"].append([A, rhs])
+                Gr.R.append(Rule(Variable(A), Alternative([Variable(x) if x in V else Terminal(x) for x in rhs])))
+            elif what == "drop_rule" and len(spec["R"]) > 1:
+                i = step["a"] % len(spec["R"])
+                del spec["R"][i]
+                del Gr.R[i]
+            elif what == "change_start":
+                A = V[step["a"] % len(V)]
+                spec["S"] = A
+                Gr.S = Variable(A)
+            else:
+                continue
+            nmod += 1
+            cls.add("edit_" + what)
+        elif op == "to_chomsky":
+            if len(spec["V"]) > 12:
+                continue
+            res = lib(CA.cfg_to_chomsky, Gr)
+            rs = BC.snap_cfg(res)
+            err = RC.valid(rs) or RC.is_cnf(rs)
+            if err:
+                raise Fail("derive_chomsky_invalid", "step %d: cfg_to_chomsky on an object with history %s: %s" % (k, hist, err))
+            if RC.lang_upto(rs, L) != RC.lang_upto(spec, L):
+                raise Fail("derive_chomsky_language", "step %d: cfg_to_chomsky on an object with history %s changes the language" % (k, hist))
+            if BC.snap_cfg(Gr) != spec:
+                raise Fail("derive_mutates_cfg", "step %d: cfg_to_chomsky changed the grammar it was applied to" % k)
+            nmod += 1
+            cls.add("to_chomsky")
+    return {"nt": nq >= 2 and nmod >= 1, "cls": sorted(cls), "out": {"queries": nq, "other_steps": nmod}}
+
+
+@st.composite
+def cfg_programs(draw, tier):
+    terms = ("a", "b") if draw(st.integers(0, 2)) else ("a",)
+    spec = draw(st.one_of(GC.cfg_specs(max_vars=3, terms=terms, max_len=3), GC.cnf_specs(max_vars=3, terms=terms, max_rules=6), GC.unit_chain_specs(terms=terms, max_len=4)))
+    words = st.lists(st.text(alphabet=list(terms), max_size=4), min_size=1, max_size=4)
+    steps = [{"op": "query", "words": draw(words)}]
+    for _ in range(draw(st.integers(2, 6 if tier == "quick" else 10))):
+        k = draw(st.integers(0, 9))
+        if k <= 2:
+            steps.append({"op": "query", "words": draw(words)})
+        elif k == 3:
+            steps.append({"op": "enumerate", "n": draw(st.integers(0, 3))})
+        elif k <= 6:
+            steps.append({"op": "in_place", "what": draw(st.sampled_from(sorted(CFG_IN_PLACE))), "hint": draw(st.sampled_from(["S", "T", "Z"]))})
+        elif k <= 8:
+            steps.append({"op": "edit", "what": draw(st.sampled_from(["add_rule", "drop_rule", "change_start"])), "a": draw(st.integers(0, 9)),
+                          "rhs": draw(st.lists(st.integers(0, 9), max_size=3))})
+        else:
+            steps.append({"op": "to_chomsky"})
+    steps.append({"op": "query", "words": draw(words)})
+    steps.append({"op": "enumerate", "n": draw(st.integers(0, 3))})
+    return {"cfg": spec, "steps": steps}
+
+
+CFG_RULE = ("model-based object histories on one grammar object: repeated membership queries and enumerations (vs. the span fixpoint on the model), the in-place phases of the Chomsky "
+            "conversion (language must be kept; the model becomes the validated snapshot), direct edits (rules added / dropped, start variable changed) and the pure cfg_to_chomsky; "
+            "non-trivial: >= 2 queries and >= 1 other step")
